@@ -44,7 +44,10 @@ type fedWorld struct {
 	w             *world
 	homes         map[string][]string // field -> services that serve it
 	faulty        bool
-	serviceErrors int
+	// introspection (schema refresh) requests fail until this simulated time: a
+	// service that is restarting during a roll-out
+	refreshOutageUntil time.Duration
+	serviceErrors      int
 	requestErrors []string
 }
 
@@ -108,6 +111,10 @@ func (fw *fedWorld) buildService(name string) (*graphql.Schema, error) {
 			return out, nil
 		})
 		q.FieldFunc("n", func() int64 { return 42 })
+		s.Object("P", P{})
+		s.Mutation().FieldFunc("touchP", func(ctx context.Context, args struct{ I int64 }) (*P, error) {
+			return w.touchP(args.I), nil
+		})
 		s.Mutation().FieldFunc("touchA", func(ctx context.Context, args struct{ I int64 }) (*A, error) {
 			if err := w.point(ctx, "Mutation.touchA", args.I); err != nil {
 				return nil, err
@@ -311,6 +318,10 @@ func (t *transport) Execute(ctx context.Context, req *federation.QueryRequest) (
 	default:
 		simrt.Yield()
 	}
+	if isIntrospection && simrt.Now() < t.fw.refreshOutageUntil {
+		t.c.Fault("schema-refresh-outage")
+		return nil, errors.New("SECRET-service-restarting-" + t.name)
+	}
 	if t.faulty && t.c.Biased(2, 930, "service-error") > 0 {
 		if isIntrospection {
 			t.c.Fault("introspection-error")
@@ -422,7 +433,20 @@ func fedBody(c *runner.Ctx) {
 			// a mutation whose response selects fields that live on other services
 			sel := &qsel{name: "touchA", argV: int64(c.Choose(w.nA+1, "arg-i"))}
 			sel.arg = fmt.Sprintf("(i: %d)", sel.argV)
-			sel.sub = g.genSetPlain("A", 1)
+			switch c.Choose(3, "mutation-payload") {
+			case 0:
+				sel.sub = g.genSetPlain("A", 1)
+			case 1:
+				// a payload type reachable only from Mutation, selected through an
+				// inline fragment (as Relay-style clients do)
+				sel.name = "touchP"
+				sel.sub = &qset{frags: []*qfrag{{on: "P", set: g.genSetPlain("P", 1)}}}
+			default:
+				sel.name = "touchP"
+				f := &qfrag{on: "P", named: "FP", set: g.genSetPlain("P", 1)}
+				g.named = append(g.named, f)
+				sel.sub = &qset{sels: []*qsel{{name: "n"}}, frags: []*qfrag{f}}
+			}
 			root := &qset{sels: []*qsel{sel}}
 			r = &fedRequest{idx: i, root: root, text: "mutation " + g.text(root, ""), cancelAt: -1, mutation: true}
 		} else {
@@ -471,12 +495,24 @@ func fedBody(c *runner.Ctx) {
 	if !fw.faulty && c.Choose(3, "redeploy") == 1 {
 		simrt.Sleep(time.Duration(c.Choose(2000, "redeploy-at")) * time.Millisecond)
 		last := transports[len(transports)-1]
+		if c.Choose(2, "refresh-outage") == 1 {
+			// the service is unreachable for a while during its restart: the
+			// refreshes in that window fail, later ones succeed again
+			out := time.Duration(1+c.Choose(3, "refresh-outage-len")) * 1100 * time.Millisecond
+			fw.refreshOutageUntil = simrt.Now() + out
+			if c.Choose(2, "outage-before-redeploy") == 1 {
+				simrt.Sleep(out + 100*time.Millisecond)
+			}
+		}
 		fw.homes["A.extra"] = []string{last.name}
 		schema, err := fw.buildService(last.name)
 		if err == nil {
 			if srv, err := federation.NewServer(schema); err == nil {
 				c.Fault("service-redeploy")
 				last.srv = srv
+				if d := fw.refreshOutageUntil - simrt.Now(); d > 0 {
+					simrt.Sleep(d)
+				}
 				simrt.Sleep(3500 * time.Millisecond) // more than three refresh intervals
 				for _, sp := range []struct{ kind, text string }{
 					{"data-extra", "{ a_0: a(i: 0) { id extra } }"},
